@@ -120,3 +120,82 @@ def canary():
                 and any(is_pre_registry(x) for x in (ss | guard)):
             flagged = True
     return [("canary.C11.registry_dependence_is_flagged", not flagged)]
+
+
+# ---------------------------------------------------------------------------------------------------
+# C18: nothing but the `list` answer and the usage database depends on the configuration
+# ---------------------------------------------------------------------------------------------------
+CFG_SYMS = ("cfg.usage_db", "cfg.blur", "cfg.blur.isnone", "cfg.allow_list", "cfg.log_requests")
+CONFIG_EXEMPT = {"server_websocket.WebSocketServer.handle_list": ("answer",),
+                 "server.AppNamespace.get_nameplate_ids": ("gated",)}
+
+
+def is_post_channel_visible(x):
+    if not x.endswith("@dep1"):
+        return False
+    return x.startswith(("ch.", "out_len", "out_buf", "WebSocketServer.", "np_next", "in_tx.ch", "Server._apps",
+                         "AppNamespace.", "Mailbox.", "alloc"))
+
+
+def config_free(src=None):
+    """for every function under contract: no conjunct of a postcondition that speaks about the channel
+    tables, the outboxes, connection state or the registries mentions a configuration symbol"""
+    out = []
+    total = 0
+    offenders = []
+    for qual, con in sorted(REGISTRY.items()):
+        if not hasattr(con, "tags"):
+            continue
+        me = Const("dep.self", INT)
+        args = {}
+        try:
+            for n, sp in con.params.items():
+                args[n] = make_symbolic_named(sp, "dep." + n)[0]
+            for n, sp in getattr(con, "free", {}).items():
+                if sp != "the_server":
+                    args[n] = make_symbolic_named(sp, "dep.free." + n)[0]
+        except Exception:
+            continue
+        S0, S1 = State.symbolic("dep0"), State.symbolic("dep1")
+        res = None
+        if con.result:
+            try:
+                res = make_symbolic(con.result, "dep.res")[0]
+            except Exception:
+                res = None
+        c = Ctx(S0, S1, args, me, con.cls, result=res)
+        try:
+            items = [(it[0], it[1]) for it in con.eval_ensures(c)]
+            for (exc, name, when, posts, fields, tags, iff) in con.eval_raises(c):
+                items.append(("raises.%s.when" % name, when))
+                items += [("raises.%s.%s" % (name, pn), t) for pn, t in posts]
+        except Exception:
+            continue        # clauses that need ghost results of a concrete path are covered through their callers
+        exempt = CONFIG_EXEMPT.get(qual, ())
+        for name, term in items:
+            if any(name == e or name.endswith("." + e) for e in exempt):
+                continue
+            for guard, atom in atoms(term, set()):
+                ss = syms(atom, {})
+                if not any(is_post_channel_visible(x) for x in ss) and not name.endswith(".when"):
+                    continue
+                total += 1
+                hit = sorted(x for x in (ss | guard) if x in CFG_SYMS)
+                if hit:
+                    offenders.append((qual.split(".", 1)[1], name, hit))
+    out.append(("census.depends.config_free", not offenders and total > 500,
+                "%d conjuncts about channel tables / outboxes / connection state / registries checked; mentioning the configuration: %s"
+                % (total, offenders[:4])))
+    return out
+
+
+def canary_config():
+    """a channel-table effect guarded by `usage_db` must be flagged"""
+    S0, S1 = State.symbolic("dep0"), State.symbolic("dep1")
+    bad = If(H.CFG_USAGE, S1.t("ch.mailboxes").live == S0.t("ch.mailboxes").live, BoolVal(True))
+    flagged = False
+    for guard, atom in atoms(bad, set()):
+        ss = syms(atom, {})
+        if any(is_post_channel_visible(x) for x in ss) and any(x in CFG_SYMS for x in (ss | guard)):
+            flagged = True
+    return [("canary.C18.config_dependence_is_flagged", not flagged)]
